@@ -145,7 +145,7 @@ func TestNextAnchors(t *testing.T) {
 	}
 	// the continuing scanner gives the same answers as the plain one
 	r = Parse("0 */15 1,2 * * 0", withSec)
-	sc := &Scanner{Z: z, S: &r.Sched}
+	sc := &Scanner{Z: z, S: &r.Sched, Fast: true}
 	for u := time.Date(2012, 3, 9, 0, 0, 0, 0, time.UTC).Unix(); u < time.Date(2012, 3, 20, 0, 0, 0, 0, time.UTC).Unix(); u += 421 {
 		a, b := sc.Next(time.Unix(u, 5)), Next(z, &r.Sched, time.Unix(u, 5))
 		if a != b {
